@@ -256,7 +256,13 @@ def wl_est_sweep(ctx, rng, case):
     eff = 0
     i = 0
     inserted = []
+    reload_at = rng.randint(1, total - 1) if rng.random() < 0.5 else None  # half of the cases go on with a LOADED copy from some point on
     while eff < total and i < 3 * total + 50:
+        if reload_at is not None and eff == reload_at:
+            f = P.RotatingBloomFilter.frombytes(bytes(f), max_queue_size=Q)
+            reload_at = None
+            case.op("reload", eff)
+            ctx.count("sweep_reloads")
         key = f"rsweep-{est}-{i}"
         i += 1
         present = (not forced) and f.check(key)
